@@ -656,7 +656,12 @@ fn drive_connection(
                 return false;
             }
             Ok(_) => continue,
-            Err(ref e) if would_block(e) => return false,
+            Err(ref e) if would_block(e) => {
+                // Nothing was written: hold on to the buffer so that it is sent first, and in full,
+                // the next time the connection is driven.
+                wbuf.replace(buf);
+                return false;
+            }
             Err(ref e) if interrupted(e) => return drive_connection(conn, wbuf, msgs),
             Err(e) => {
                 error!(?conn, error = %e, "write failed");
